@@ -19,7 +19,12 @@ Reading guide (statement of C05 → theorem):
   `C05_fresh_distinct`;
 * the unifying factories alias exactly on equal keys and never with a generative node → `C05_unified_key`,
   `C05_unified_alias_iff`, `C05_unified_never_generative`, `C05_generative_never_unified`;
-* no reference dangles → `C05_no_dangling`, `C05_answer_exists`.
+* no reference dangles → `C05_no_dangling`, `C05_answer_exists`;
+* what `scope[name][type]` answered stays the answer, whatever is appended afterwards (a homogeneous scope answers the
+  FIRST member of a name) → `C05_lookup_pure`, `C05_lookup_answer`, `C05_lookup_stable_step`, `C05_lookup_stable`;
+* transfers: `get_transfer` normalises to the transfer of the convention / of the linkage alone, a function or as-type
+  requested with a transfer equal to the natural one is the plain node → `C05_transfer_normal`,
+  `C05_natural_transfer_plain`, `C05_other_transfer_kept` (aliasing then follows from `C05_unified_alias_iff`).
 -/
 namespace Ipr.Stable
 
@@ -200,6 +205,70 @@ theorem C05_generative_never_unified (ops : List Op) (a b : Nat) (hab : a < b) (
     (ha : (answers {} ops)[a]? = some (.node u)) (hb : (answers {} ops)[b]? = some (.node g)) : u ≠ g :=
   Nat.ne_of_lt (C05_fresh_history ops a b hab u g opb ha hb hopb hgb)
 
+/-! ## Look-ups by name and type -/
+
+/-- A look-up changes nothing. -/
+theorem C05_lookup_pure (s : State) (sc n t : Id) : (step s (.lookup sc n t)).1 = s := by
+  simp only [step]
+  repeat' split
+  all_goals rfl
+
+/-- The node a `lookup` operation answers is what `lookupIn` (first declaration of that name and type in a general scope,
+    first member of that name -- if it has that type -- in a homogeneous one) prescribes. -/
+theorem C05_lookup_answer (s : State) (sc n t d : Id) (h : (step s (.lookup sc n t)).2 = .node d) :
+    lookupIn s sc n t = some (some d) := by
+  simp only [step] at h
+  split at h
+  · split at h
+    · rename_i d' heq
+      split at h
+      · cases h; exact heq
+      · cases h
+    · cases h
+    · cases h
+  · cases h
+
+/-- One operation, from any well-formed state: a look-up that answered a declaration keeps answering it. -/
+theorem C05_lookup_stable_step (s : State) (w : WF s) (op : Op) (sc n t d : Id) (hsc : sc < s.size)
+    (h : lookupIn s sc n t = some (some d)) : lookupIn (step s op).1 sc n t = some (some d) :=
+  lookupIn_step w op hsc h
+
+/-- For every history and every prefix of it: what `scope[n][t]` answered after the prefix is what it answers after the
+    whole history (in particular appending members of the same name to a parameter list or an enumeration does not move
+    the answer to a later member). -/
+theorem C05_lookup_stable (ops : List Op) (k : Nat) (sc n t d : Id) (hsc : sc < (run (ops.take k)).size)
+    (h : lookupIn (run (ops.take k)) sc n t = some (some d)) : lookupIn (run ops) sc n t = some (some d) := by
+  rw [run_split ops k]
+  exact lookupIn_runFrom (WF.run _) _ hsc h
+
+/-! ## Linkages, calling conventions, transfers -/
+
+/-- `get_transfer(l, c)`: over the C++ linkage it is the transfer of the convention alone, else over the natural
+    convention the transfer of the linkage alone, else the pair (src/impl.cxx:1155-1164). -/
+theorem C05_transfer_normal (s : State) (l c : Id) :
+    (spellingOf s l = some cxxHex →
+      resolvedKey s "get_transfer" [.node l, .node c] = resolvedKey s "get_transfer_from_convention" [.node c]) ∧
+    (spellingOf s l ≠ some cxxHex → spellingOf s c = some "" →
+      resolvedKey s "get_transfer" [.node l, .node c] = resolvedKey s "get_transfer_from_linkage" [.node l]) ∧
+    (spellingOf s l ≠ some cxxHex → spellingOf s c ≠ some "" →
+      resolvedKey s "get_transfer" [.node l, .node c] = some ("get_transfer", [.node l, .node c])) := by
+  refine ⟨fun h => ?_, fun h1 h2 => ?_, fun h1 h2 => ?_⟩
+  · simp [resolvedKey, resolve, h]
+  · simp [resolvedKey, resolve, h1, h2]
+  · simp [resolvedKey, resolve, h1, h2]
+
+/-- A function type / as-type requested with a transfer that equals the natural C++ one is the plain node. -/
+theorem C05_natural_transfer_plain (s : State) (p t e x : Id) (h : isNaturalTransfer s x = true) :
+    resolvedKey s "get_function_x" [.node p, .node t, .node x] = resolvedKey s "get_function" [.node p, .node t] ∧
+    resolvedKey s "get_as_type_x" [.node e, .node x] = resolvedKey s "get_as_type" [.node e] := by
+  constructor <;> simp [resolvedKey, resolve, h]
+
+/-- With any other transfer the node is keyed by that transfer too. -/
+theorem C05_other_transfer_kept (s : State) (p t e x : Id) (h : isNaturalTransfer s x = false) :
+    resolvedKey s "get_function_x" [.node p, .node t, .node x] = some ("get_function_x", [.node p, .node t, .node x]) ∧
+    resolvedKey s "get_as_type_x" [.node e, .node x] = some ("get_as_type_x", [.node e, .node x]) := by
+  constructor <;> simp [resolvedKey, resolve, h]
+
 /-! ## Non-vacuity: a concrete history with a class, members, a redeclaration, a base, a link and unified hits -/
 
 /-- ids: 0-2 global region/scope/product, 3 `int`, 4 string, 5 identifier, 6-12 class with its regions,
@@ -237,5 +306,33 @@ example : watch (run (demo.take 6)) 9 = [8] ∧ memTargets (run (demo.take 6)) (
 example : resolvedKey (run (demo.take 9)) "get_identifier" [.str "78"] = some ("get_identifier", [.node 4]) ∧
     isUnified "get_identifier" = true ∧ (Op.mk "make_class" [.node 0]).generative = true ∧
     (Op.mk "make_literal" [.node 3, .str "31"]).generative = false := by decide +kernel
+
+/-- ids: 0-2 global region/scope/product, 3 `int`, 4 `char`, 5/6 string and identifier "" (unnamed), 7/8 string and
+    identifier `x`, 9-13 mapping / parameter list / region / scope / product, 14-17 parameters `x:int`, `"":char`,
+    `"":int`, `"":char`; 18 Java, 19 C++, 20 natural convention, 21 `__fastcall`, 22-25 transfers, 26 product (),
+    27 the plain function type, 28 the Java one -/
+def demo2 : List Op :=
+  [ .root, .const "int", .const "char", .mk "get_identifier" [.str ""], .mk "get_identifier" [.str "78"],
+    .mk "make_mapping" [.node 0, .num 0], .mparam 9 8 3, .mparam 9 6 4, .lookup 12 6 4, .mparam 9 6 3, .mparam 9 6 4,
+    .lookup 12 6 4, .lookup 12 6 3, .lookup 12 8 3, .lookup 12 8 4,
+    .mk "get_linkage" [.str "4a617661"], .mk "get_linkage" [.str cxxHex], .mk "get_calling_convention" [.str ""],
+    .mk "get_calling_convention" [.str "5f5f6661737463616c6c"],
+    .mk "get_transfer" [.node 18, .node 20], .mk "get_transfer_from_linkage" [.node 18],
+    .mk "get_transfer" [.node 19, .node 21], .mk "get_transfer" [.node 18, .node 21], .mk "get_transfer" [.node 19, .node 20],
+    .whNew, .mk "get_product" [.wh 0], .mk "get_function" [.node 26, .node 3],
+    .mk "get_function_x" [.node 26, .node 3, .node 25], .mk "get_function_x" [.node 26, .node 3, .node 22] ]
+
+/-- the second unnamed parameter does not displace the first; selection by another type than the first member's finds
+    nothing; transfers are normalised; a transfer equal to the natural one gives the plain function type -/
+example : answers {} demo2 =
+    [.node 0, .node 3, .node 4, .node 6, .node 8, .node 9, .node 14, .node 15, .node 15, .node 16, .node 17,
+     .node 15, .unit, .node 14, .unit,
+     .node 18, .node 19, .node 20, .node 21, .node 22, .node 22, .node 23, .node 24, .node 25,
+     .unit, .node 26, .node 27, .node 27, .node 28] := by decide +kernel
+
+/-- the hypotheses of `C05_lookup_stable`, `C05_natural_transfer_plain` and `C05_other_transfer_kept` are satisfiable -/
+example : lookupIn (run (demo2.take 8)) 12 6 4 = some (some 15) ∧ 12 < (run (demo2.take 8)).size ∧
+    isNaturalTransfer (run demo2) 25 = true ∧ isNaturalTransfer (run demo2) 22 = false ∧
+    transferValue (run demo2) 24 = some ("4a617661", "5f5f6661737463616c6c") := by decide +kernel
 
 end Ipr.Stable
